@@ -290,7 +290,7 @@ def triu(x, k=0):
     if not x.ndim >= 2:
         raise NotImplementedError("sparse.triu is not implemented for scalars or 1-D arrays.")
 
-    mask = x.coords[-2] + k <= x.coords[-1]
+    mask = x.coords[-2].astype(np.intp, copy=False) + k <= x.coords[-1]
 
     coords = x.coords[:, mask]
     data = x.data[mask]
@@ -331,7 +331,7 @@ def tril(x, k=0):
     if not x.ndim >= 2:
         raise NotImplementedError("sparse.tril is not implemented for scalars or 1-D arrays.")
 
-    mask = x.coords[-2] + k >= x.coords[-1]
+    mask = x.coords[-2].astype(np.intp, copy=False) + k >= x.coords[-1]
 
     coords = x.coords[:, mask]
     data = x.data[mask]
